@@ -63,6 +63,11 @@ def _gene_events(args):
                 E.warm(t)
             E.warm(g)
         pidx = [k for k, t in enumerate(g.transcripts) if t is g.primary_transcript]
+        # the shared-API spellings name the same member: get_primary_feature() is the primary transcript, and
+        # get_primary_cds() its CDS
+        if len(pidx) == 1 and not (g.get_primary_feature() is g.primary_transcript
+                                   and g.get_primary_cds() is g.primary_transcript.cds):
+            pidx = []
         ev.append(["gene", ch_desc, ctor, g.start, g.end, g.is_coding, pidx[0] + 1 if len(pidx) == 1 else 0,
                    E.outcome(lambda: E.loc(g.get_merged_transcript().chromosome_location)),
                    E.outcome(lambda: E.loc(g.get_merged_cds().chromosome_location)),
@@ -128,6 +133,19 @@ def _iter_events(seed):
             it2 = [next(i for i, y in enumerate(order) if y is x) + 1 for x in coll.iter_children()]
             ev.append(["iter", starts, it2])
         ev.append(["iter", starts, it])
+        # the view without the variant collections, and the per-type accessors: same order, nothing lost
+        nv = genes + fcs
+        if nv:
+            ev.append(["iter", [x.start for x in nv],
+                       [next(i for i, y in enumerate(nv) if y is x) + 1 for x in coll.iter_non_variant_children()]])
+        for typ, lst in (("transcript", genes), ("feature", fcs), ("variant", vcs)):
+            got = coll.get_children_by_type(typ)
+            if lst or got:
+                # (per-type lists promise the members, not an order: membership is what is judged)
+                idx = [next((i for i, y in enumerate(lst) if y is x), -1) + 1 for x in got]
+                ok = 0 not in idx and sorted(idx) == list(range(1, len(lst) + 1))
+                ev.append(["iter", [x.start for x in lst],
+                           sorted(range(1, len(lst) + 1), key=lambda i: (lst[i - 1].start, i)) if ok else [0]])
     return ev
 
 
